@@ -176,3 +176,28 @@ Proof.
   destruct (rt_data_reader maxh f2 ro bs ct2 H2 Hr Hm H10 L2) as (r2 & A2 & B2 & _).
   exists r1, r2. tauto.
 Qed.
+
+(* ---- the readers that reject an empty root list ---------------------------------------------------------------- *)
+Lemma root_rejects_empty hok hdrdec file roots v rest :
+  read_header_root hdrdec file = Ok (roots, v, rest) -> roots = [] ->
+  root_read_all hok hdrdec file = Err EOther.
+Proof.
+  intros H ->. unfold root_read_all. rewrite H. destruct (negb (v =? 1)); reflexivity.
+Qed.
+
+Lemma carv1_rejects_empty hok hdrdec o file roots v rest used :
+  read_header hdrdec (o_maxh o) file = Ok (roots, v, rest, used) -> roots = [] ->
+  carv1_read_all hok hdrdec o file = Err EOther.
+Proof.
+  intros H ->. unfold carv1_read_all. rewrite H. destruct (negb (v =? 1)); reflexivity.
+Qed.
+
+(* internal carv1 reader (v2/internal/carv1: NewCarReader + Next) over the payload *)
+Theorem rt_carv1_reader hok o ro bs :
+  archive_ok_o hok dec_header_canon o ro bs -> hdr_roots ro <> [] -> Forall (hash_good hok) bs ->
+  carv1_read_all hok dec_header_canon o (payload_of ro bs) = Ok (hdr_roots ro, mkscan bs EEof).
+Proof.
+  intros (Hg & Hm & H63 & Hok & Hh) Hne Hhg. destruct ro as [roots|]; [|cbn in Hne; congruence].
+  cbn [hdr_roots] in *. apply carv1_read_all_v1; [|exact Hne|exact Hhg].
+  repeat split; assumption.
+Qed.
